@@ -10,7 +10,7 @@ CENSUS = {
     'C04': ['Storage::rollback_to_block' + S],
     'C08': ['Storage::init_genesis_block' + S[:-2] + '|Storage::filter_block|Storage::update_last_state)$', 'Storage::update_last_state' + S, 'Storage::add_matched_blocks' + S, 'Storage::remove_matched_blocks' + S, 'Storage::update_min_filtered_block_number' + S],
     'C09': ['!<BlockFilterRpcImpl as BlockFilterRpc>::set_scripts@^(Storage::update_filter_scripts|HashMap::clear)$', 'Storage::update_filter_scripts' + S[:-2] + '|Storage::clear_matched_blocks|Storage::filter_block)$', 'Storage::clear_matched_blocks' + S],
-    'C11': ['~Peers::get_peers_which_have_timeout', '~Peers::get_peers_which_require_new_state', '~Peers::get_peers_which_require_new_proof',
+    'C11': ['!LightClientProtocol::process_last_state@^Peers::update_last_state$', '~Peers::get_peers_which_have_timeout', '~Peers::get_peers_which_require_new_state', '~Peers::get_peers_which_require_new_proof',
             '~Peers::get_peers_which_require_more_check_points', '~Peers::get_peers_which_require_more_latest_block_filter_hashes',
             '~Peers::get_all_proved_check_points', '~Peers::get_all_prove_states', '~Peers::find_if_a_header_is_proved',
             '~Peers::find_header_in_proved_state', '~Peers::get_best_proved_peers',
